@@ -220,7 +220,7 @@ class DiscWorld:
         if p.get("first_heard") != "during_start":
             w.rx(SYNC)
         t = self.loop.time()
-        for cp in p.get("checkpoints", (10.0, 60.0)) + (p["horizon"],):
+        for cp in tuple(p.get("checkpoints", (10.0, 60.0))) + (p["horizon"],):
             if cp > t:
                 self.loop.quiesce(cp)
                 t = cp
@@ -342,6 +342,8 @@ def fault_scenarios(quick: bool) -> list[tuple[dict, int]]:
         {"zones": {}, "dhw": dhw_cfg("s"), "app": APP["bdr"]},
     ]
     sc = [({"cfg": c, "horizon": H25, "fault_window": 60.0, "checkpoints": (10.0, 60.0, 3600.0)}, 1) for c in base]
+    # every PAIR of exchanges whose replies are all lost (one fate kind only, so that two deviations stay affordable in the quick tier)
+    sc += [({"cfg": c, "horizon": H25, "fault_window": 60.0, "fates": ("lose_rps",), "checkpoints": (10.0, 60.0, 3600.0)}, 2) for c in (base[0], base[3])]
     if not quick:
         sc += [({"cfg": c, "horizon": H25, "fault_window": 60.0, "checkpoints": (10.0, 60.0, 3600.0)}, 2) for c in base[:1] + base[4:]]
         # a loss in the second round too: the third round (48 h) must fill it in
@@ -359,7 +361,7 @@ def run(ctx) -> None:
     fsc = fault_scenarios(ctx.quick)
     ftasks = []
     for p, D in fsc:
-        nsh = 6 if D == 1 else 32
+        nsh = 6 if D == 1 else (16 if p.get("fates") and len(p["fates"]) == 1 else 32)
         ftasks += [(p, D, 7, ctx.seed, (k, nsh)) for k in range(nsh)]
     ftasks.sort(key=lambda t: -t[1])
     total = X.Summary()
